@@ -219,9 +219,9 @@ def run(ctx):
         tlc.cleanup(d)
     rng = ctx.rng
     sel = rng.sample(rows, ctx.pick(60, 530))
-    jobs = [("p1", r, ctx.seed * 31337 + i * 17 + k) for i, r in enumerate(sel) for k in range(ctx.pick(2, 3))]
+    jobs = [("p1", r, ctx.seed * 31337 + i * 17 + k) for i, r in enumerate(sel) for k in range(ctx.pick(2, 10))]
     trig_rows = [r for r in rows if r["number"] in RGROUPS and r["choice"] == "H"]
-    jobs += [("trig", r, ctx.seed * 4241 + i * 7 + k) for i, r in enumerate(trig_rows) for k in range(ctx.pick(12, 150))]
+    jobs += [("trig", r, ctx.seed * 4241 + i * 7 + k) for i, r in enumerate(trig_rows) for k in range(ctx.pick(12, 600))]
     recs = [x for x in pool_map(gen, jobs) if "__none__" not in x]
     traces = pool_map(drive, recs)
     ctx.notes["p1_traces"] = sum(1 for t in traces if t["k"] == "p1")
